@@ -399,13 +399,84 @@ func (a Float) M__round__(digitsObj Object) (Object, error) {
 			return nil, err
 		}
 	}
-	scale := Float(math.Pow(10, float64(digits)))
-	return scale * Float(math.Floor(float64(a)/float64(scale))), nil
+	x := float64(a)
+	if digitsObj == None {
+		// round(x) returns an int: nearest, ties to even
+		return Float(math.RoundToEven(x)).M__int__()
+	}
+	if x == 0 || math.IsNaN(x) || math.IsInf(x, 0) {
+		return a, nil
+	}
+	if digits >= 0 {
+		if digits > 323 {
+			return a, nil
+		}
+		// the decimal expansion of a double is finite, so this is the correctly rounded result
+		res, err := strconv.ParseFloat(strconv.FormatFloat(x, 'f', digits, 64), 64)
+		if err != nil {
+			return nil, ExceptionNewf(OverflowError, "rounded value too large to represent")
+		}
+		return Float(res), nil
+	}
+	if digits < -308 {
+		return Float(math.Copysign(0, x)), nil
+	}
+	// round to a multiple of 10**-digits exactly: q = x / scale rounded half to even
+	scale := new(big.Int).Exp(big.NewInt(10), big.NewInt(int64(-digits)), nil)
+	r := new(big.Rat)
+	r.SetFloat64(x)
+	r.Quo(r, new(big.Rat).SetInt(scale))
+	q, rem := new(big.Int).QuoRem(r.Num(), r.Denom(), new(big.Int)) // truncated
+	twice := new(big.Int).Abs(rem)
+	twice.Lsh(twice, 1)
+	if c := twice.Cmp(r.Denom()); c > 0 || (c == 0 && q.Bit(0) == 1) {
+		if x < 0 {
+			q.Sub(q, big.NewInt(1))
+		} else {
+			q.Add(q, big.NewInt(1))
+		}
+	}
+	res, _ := new(big.Float).SetInt(q.Mul(q, scale)).Float64()
+	if res == 0 {
+		res = math.Copysign(0, x)
+	}
+	if math.IsInf(res, 0) {
+		return nil, ExceptionNewf(OverflowError, "rounded value too large to represent")
+	}
+	return Float(res), nil
 }
 
 // Rich comparison
 
+// floatCmpInt compares a finite float with an integer exactly (no
+// conversion of the integer to float).  ok is false if other is not
+// an integer; unordered is true if a is a NaN.
+func floatCmpInt(a Float, other Object) (cmp int, unordered bool, ok bool) {
+	var b *big.Int
+	switch x := other.(type) {
+	case Int:
+		b = big.NewInt(int64(x))
+	case *BigInt:
+		b = (*big.Int)(x)
+	default:
+		return 0, false, false
+	}
+	if math.IsNaN(float64(a)) {
+		return 0, true, true
+	}
+	if math.IsInf(float64(a), 0) {
+		if a > 0 {
+			return 1, false, true
+		}
+		return -1, false, true
+	}
+	return new(big.Float).SetFloat64(float64(a)).Cmp(new(big.Float).SetInt(b)), false, true
+}
+
 func (a Float) M__lt__(other Object) (Object, error) {
+	if c, unordered, ok := floatCmpInt(a, other); ok {
+		return NewBool(!unordered && c < 0), nil
+	}
 	if b, ok := convertToFloat(other); ok {
 		return NewBool(a < b), nil
 	}
@@ -413,6 +484,9 @@ func (a Float) M__lt__(other Object) (Object, error) {
 }
 
 func (a Float) M__le__(other Object) (Object, error) {
+	if c, unordered, ok := floatCmpInt(a, other); ok {
+		return NewBool(!unordered && c <= 0), nil
+	}
 	if b, ok := convertToFloat(other); ok {
 		return NewBool(a <= b), nil
 	}
@@ -420,6 +494,9 @@ func (a Float) M__le__(other Object) (Object, error) {
 }
 
 func (a Float) M__eq__(other Object) (Object, error) {
+	if c, unordered, ok := floatCmpInt(a, other); ok {
+		return NewBool(!unordered && c == 0), nil
+	}
 	if b, ok := convertToFloat(other); ok {
 		return NewBool(a == b), nil
 	}
@@ -427,6 +504,9 @@ func (a Float) M__eq__(other Object) (Object, error) {
 }
 
 func (a Float) M__ne__(other Object) (Object, error) {
+	if c, unordered, ok := floatCmpInt(a, other); ok {
+		return NewBool(unordered || c != 0), nil
+	}
 	if b, ok := convertToFloat(other); ok {
 		return NewBool(a != b), nil
 	}
@@ -434,6 +514,9 @@ func (a Float) M__ne__(other Object) (Object, error) {
 }
 
 func (a Float) M__gt__(other Object) (Object, error) {
+	if c, unordered, ok := floatCmpInt(a, other); ok {
+		return NewBool(!unordered && c > 0), nil
+	}
 	if b, ok := convertToFloat(other); ok {
 		return NewBool(a > b), nil
 	}
@@ -441,6 +524,9 @@ func (a Float) M__gt__(other Object) (Object, error) {
 }
 
 func (a Float) M__ge__(other Object) (Object, error) {
+	if c, unordered, ok := floatCmpInt(a, other); ok {
+		return NewBool(!unordered && c >= 0), nil
+	}
 	if b, ok := convertToFloat(other); ok {
 		return NewBool(a >= b), nil
 	}
